@@ -136,7 +136,7 @@ func (h *H) drawCase(rt *rapid.T, prop string, excl map[string]int) *core.Case {
 			}
 		}
 		n := g.Int(3, 7)
-		acts := []string{"gen", "gen-rm", "scribble:absent", "scribble:own", "scribble:other", "scribble:bytes", "scribble:badgo", "scribble:clash", "evolve", "gen", "gen-rm", "gen"}
+		acts := []string{"gen", "gen-rm", "scribble:absent", "scribble:own", "scribble:other", "scribble:bytes", "scribble:badgo", "scribble:clash", "scribble:symlink", "scribble:danglink", "evolve", "gen", "gen-rm", "gen"}
 		for i := 0; i < n; i++ {
 			s.Actions = append(s.Actions, g.Pick(acts))
 		}
@@ -147,7 +147,7 @@ func (h *H) drawCase(rt *rapid.T, prop string, excl map[string]int) *core.Case {
 		}
 	default:
 		s.Kind = "fault"
-		s.Prior = g.Pick([]string{"absent", "bytes", "good", "longer", "longer"})
+		s.Prior = g.Pick([]string{"absent", "bytes", "good", "longer", "longer", "otherfmt", "crlf"})
 		s.Rm = g.Chance(35)
 		faults := []string{"none", "none", "none", "none", "none", "none", "noargs", "onearg", "srcmissing", "srcempty", "syntaxerr", "typeerr", "twopkgs", "badarg", "badarg", "badarg",
 			"mkdirfail", "outisdir", "outisemptydir", "immutable", "immutabledir", "longname", "rmfail", "fsize", "stdout", "badarg-stdout", "stdoutfull"}
@@ -163,8 +163,8 @@ func (h *H) drawCase(rt *rapid.T, prop string, excl map[string]int) *core.Case {
 			dir = "out/" + c.Cfg.Pkg
 		}
 		name := "mock_gen.go"
-		if c.Cfg.DestKind == "test" {
-			name = "mock_gen_test.go"
+		if c.Cfg.DestKind == "test" && g.Chance(65) {
+			name = "mock_gen_test.go" // otherwise: a name the go command would not take for a test file (moq must not care)
 		}
 		if g.Chance(30) {
 			name += ".txt"
@@ -351,6 +351,16 @@ func readState(p string) (exists bool, isDir bool, content []byte) {
 	return true, false, b
 }
 
+// readStateL is readState for a path that may be a symbolic link: a link exists even when it dangles, and its
+// state is "link" plus whatever can be read through it.
+func readStateL(p string) (exists, isDir bool, content []byte) {
+	if st, err := os.Lstat(p); err == nil && st.Mode()&os.ModeSymlink != 0 {
+		b, _ := os.ReadFile(p)
+		return true, false, append([]byte("symlink->"), b...)
+	}
+	return readState(p)
+}
+
 func looksLikeGoSource(b []byte) bool {
 	for _, l := range strings.Split(string(b), "\n") {
 		if strings.HasPrefix(l, "// Code generated by moq") || strings.HasPrefix(l, "package ") || strings.HasPrefix(l, "type ") && strings.HasSuffix(l, "struct {") {
@@ -452,22 +462,35 @@ func (h *H) evalHistory(c *core.Case, s *Scenario, dir, world string, r *run) {
 			case "clash":
 				first := oracle.Requests(c.Cfg.Args)[0]
 				content = []byte("package " + c.SrcName + "\n\ntype " + first.Mock + " struct{ Stale int }\n")
+			case "symlink", "danglink":
+				// the -out path is a symbolic link: to stale non-compiling content kept elsewhere, or to nothing
+				target := filepath.Join(dir, "linktarget_"+kind+".go.txt")
+				if kind == "symlink" {
+					_ = os.WriteFile(target, []byte("package "+c.SrcName+"\n\nvar zzStale int = \"kept elsewhere\"\n"), 0o644)
+				} else {
+					_ = os.Remove(target)
+				}
+				_ = os.Remove(outAbs)
+				_ = os.Symlink(target, outAbs)
+				r.logf("%d scribble %s -> %s", i, kind, target)
+				continue
 			}
+			_ = os.Remove(outAbs) // never write through a link left by an earlier step
 			_ = os.WriteFile(outAbs, content, 0o644)
 			r.logf("%d scribble %s (%d bytes)", i, kind, len(content))
 		case act == "gen" || act == "gen-rm":
 			rm := act == "gen-rm"
 			cl := cleanOf(version)
-			_, _, before := readState(outAbs)
-			existed, _, _ := readState(outAbs)
+			_, _, before := readStateL(outAbs)
+			existed, _, _ := readStateL(outAbs)
 			rc := c.Clone()
 			rc.Files = nil
 			rc.Cfg.Out = outRel
 			rc.Cfg.Rm = rm
 			res := core.RunMoq(h.Env, rc, world)
 			r.note("moq_runs")
-			_, _, after := readState(outAbs)
-			afterExists, _, _ := readState(outAbs)
+			_, _, after := readStateL(outAbs)
+			afterExists, _, _ := readStateL(outAbs)
 			r.logf("%d %s v%d: prior=%v(%dB) exit=%d after=%v(%dB) clean_exit=%d %s", i, act, version, existed, len(before), res.Exit, afterExists, len(after), cl.exit, res.StderrFirstLine())
 			if crashed, what := oracle.Crashed(res); crashed {
 				r.bad("C19", "no-crash", "moq %v: %s", res.Argv, what)
